@@ -852,6 +852,66 @@ func TestC15(t *testing.T) {
 	}
 	rec.Run("c15", scripts, nil)
 	record(w, rec, &seq, sum, seen, trace.Ev{"cfg": "N=3 R=2 P=13"}, func(h *History) bool { return true })
+	// one pipeline carrying many operations, one per key, of every kind, spread over all partitions: every future must
+	// get the reply of its own command
+	for _, p := range paths {
+		pp, ok := p.(*pipePath)
+		if !ok {
+			continue
+		}
+		for b := 0; b < envInt("VERIF_BATCHES", 4); b++ {
+			rec := NewRecorder()
+			var setup, batch []Step
+			var fin Script
+			fin = Script{Client: "fin", Path: paths[rng.Intn(len(paths))]}
+			for i := 0; i < 24; i++ {
+				key := fmt.Sprintf("b%d-%d", b, i)
+				kind := rng.Intn(8)
+				present := rng.Intn(2) == 0
+				switch {
+				case kind >= 5 && kind <= 6: // numeric keys
+					if present {
+						setup = append(setup, Step{Op: "incr", Key: key, Delta: 10 + i})
+					}
+					if kind == 5 {
+						batch = append(batch, Step{Op: "incr", Key: key, Delta: 1 + i})
+					} else {
+						batch = append(batch, Step{Op: "decr", Key: key, Delta: 1 + i})
+					}
+					fin.Steps = append(fin.Steps, Step{Op: "get", Key: key, Num: true})
+				case kind == 7:
+					if present {
+						setup = append(setup, Step{Op: "incrf", Key: key, Delta: 1024})
+					}
+					batch = append(batch, Step{Op: "incrf", Key: key, Delta: 512})
+					fin.Steps = append(fin.Steps, Step{Op: "get", Key: key, Float: true})
+				default:
+					if present {
+						setup = append(setup, Step{Op: "put", Key: key, Val: "old-" + key})
+					}
+					switch kind {
+					case 0:
+						batch = append(batch, Step{Op: "put", Key: key, Val: "new-" + key, Opts: PutOpts{NX: rng.Intn(3) == 0}})
+					case 1:
+						batch = append(batch, Step{Op: "get", Key: key})
+					case 2:
+						batch = append(batch, Step{Op: "del", Key: key})
+					case 3:
+						batch = append(batch, Step{Op: "getput", Key: key, Val: "gp-" + key})
+					default:
+						batch = append(batch, Step{Op: "put", Key: key, Val: "xx-" + key, Opts: PutOpts{XX: true}})
+					}
+					fin.Steps = append(fin.Steps, Step{Op: "get", Key: key})
+				}
+			}
+			rec.Run("c15", []Script{{Client: "setup", Path: paths[0], Steps: setup}}, nil)
+			rec.Batch(context.Background(), "c15", "batch", pp, batch)
+			rec.Run("c15", []Script{fin}, nil)
+			sum.Evaluations += len(setup) + len(batch) + len(fin.Steps)
+			sum.Paths[pp.Name()+"-batch"]++
+			record(w, rec, &seq, sum, seen, trace.Ev{"cfg": "N=3 R=2 P=13", "batch": true}, func(h *History) bool { return true })
+		}
+	}
 	if err := w.Close(); err != nil {
 		t.Fatal(err)
 	}
